@@ -6,7 +6,7 @@ were returned for them.
 * every answer to `add(data)`:
   - a size that is not one of 1,2,4,8,16,32,64 is refused and the reported size/alignment do not move;
   - otherwise an offset `off` is returned with `size ∣ off` (aligned), `off + size ≤` reported pool size, `size ∣` reported
-    alignment, the pool never shrinks, and against every earlier accepted constant `e`:
+    (non-zero) alignment, the pool never shrinks, and against every earlier accepted constant `e`:
     equal bytes (hence equal size) ⇒ equal offset (deduplicated, stable), and `e` and the new constant agree on every
     byte position they have in common (distinct storage never overlaps: two *different* placed constants can only share
     positions where they carry the same byte, i.e. when one is a sub-constant of the other).
@@ -40,6 +40,10 @@ def compatible (a b : Entry) : Bool :=
   (List.range a.data.length).all fun k =>
     !(covers b (a.offset + k)) || a.data[k]? == b.data[a.offset + k - b.offset]?
 
+/-- aligning the pool to `align` aligns a constant of size `len` placed at a multiple of `len`: `align` is a non-zero
+multiple of `len` (an alignment of 0 covers nothing) -/
+def alignCovers (align len : Nat) : Bool := decide (len ≤ align) && align % len == 0
+
 /-- judgement of an accepted `add` against the history -/
 def placedOk (hist : List Entry) (n : Entry) : Bool :=
   hist.all fun e => (!(e.data == n.data) || e.offset == n.offset) && compatible e n
@@ -49,7 +53,7 @@ def imageOk (hist : List Entry) (size align : Nat) (img : Bytes) : Bool :=
   img.length == size
   && hist.all (fun e => slice img e.offset e.data.length == e.data)
   && (List.range size).all (fun p => hist.any (covers · p) || img[p]? == some 0#8)
-  && hist.all (fun e => align % e.data.length == 0)
+  && hist.all (fun e => alignCovers align e.data.length)
 
 /-- what the implementation shows for one operation -/
 inductive Obs where
@@ -73,7 +77,7 @@ def Mon.step (m : Mon) : Obs → Bool × Mon
     if validSize data.length then
       match r with
       | .ok off =>
-        (off % data.length == 0 && decide (off + data.length ≤ size) && align % data.length == 0
+        (off % data.length == 0 && decide (off + data.length ≤ size) && alignCovers align data.length
           && decide (m.size ≤ size) && decide (m.align ≤ align) && placedOk m.hist ⟨data, off⟩,
          { hist := ⟨data, off⟩ :: m.hist, size := size, align := align })
       | .invalidArgument => (false, m)
